@@ -85,7 +85,9 @@ func (e *Engine) CheckRelationTuple(ctx context.Context, r *relationTuple, restD
 		restDepth = globalMaxDepth
 	}
 
-	resultCh := make(chan checkgroup.Result)
+	// The channel is buffered, so that the goroutine can always deliver its
+	// result and exit, also if we stopped listening because ctx was cancelled.
+	resultCh := make(chan checkgroup.Result, 1)
 	go e.checkIsAllowed(ctx, r, restDepth, false)(ctx, resultCh)
 	verifhook.Point("engine.select")
 	select {
